@@ -201,10 +201,15 @@ Simplify(op, up) == SimplifyG(op, up, TRUE)
 Commutator(first, second, done) == [first |-> first, second |-> second, done |-> done]
 Refuse(cur) == Commutator(NoneOp, cur, FALSE)
 
+\* TRUE: the code after the fix of finding F21 (a companion configuration overrides it)
+FixF21 == TRUE
 CommuteG(new, cur, tc, sortFix) ==
     LET curCols == OpCols(cur, tc) IN
     CASE new.o = "calc" ->
-            IF ~(ReqE(new.e) \subseteq tc) THEN Refuse(cur)
+            \* (fix of finding F21) the tag of the new column may have been dropped by the current
+            \* operation (a projection) and still exist upstream of it
+            IF FixF21 /\ new.tag \in tc THEN Refuse(cur)
+            ELSE IF ~(ReqE(new.e) \subseteq tc) THEN Refuse(cur)
             ELSE Commutator(new, IF cur.o = "proj" THEN Proj(cur.cols \cup {new.tag}) ELSE cur, TRUE)
       [] new.o = "dedup" ->
             IF ~(tc \subseteq curCols) THEN Refuse(cur)
